@@ -121,9 +121,9 @@ fn exec(ctx: &mut Ctx, ev: &Ev, rng: &mut Rng) {
             let r = guard(|| {
                 let a = ma.real();
                 let b = mb.real();
-                ([a ^ b, &a ^ b, &a ^ &b, a ^ &b], [!a, !&a], a == b)
+                ([a ^ b, &a ^ b, &a ^ &b, a ^ &b], [!a, !&a], a == b, a, b)
             });
-            let (xors, nots, eq) = match r {
+            let (xors, nots, eq, ra, rb) = match r {
                 Outcome::Returned(x) => x,
                 Outcome::Panicked(msg) => {
                     ctx.violate("no-panic", ev, "epair", format!("exclusive cube operation panicked: {}", msg));
@@ -143,6 +143,12 @@ fn exec(ctx: &mut Ctx, ev: &Ev, rng: &mut Rng) {
             let same = ma.vars == mb.vars && ma.xnor == mb.xnor;
             debug_assert!(!same || asg.iter().all(|m| ma.sat(*m) == mb.sat(*m)));
             ctx.check("e-eq-semantic", eq == same, ev, "eq", || format!("a == b is {} but semantic equality is {} for a=({:#x},{}) b=({:#x},{})", eq, same, ma.vars, ma.xnor, mb.vars, mb.xnor));
+            match guard(|| vmon::obs::eq_ord_hash_routes(&ra, &rb, same)) {
+                Outcome::Returned(Ok(k)) => ctx.checked("e-eq-routes-agree", k as u64),
+                Outcome::Returned(Err(route)) => ctx.violate("e-eq-routes-agree", ev, route, format!(
+                    "route `{}` disagrees with semantic equality ({}) for a=({:#x},{}) b=({:#x},{})", route, same, ma.vars, ma.xnor, mb.vars, mb.xnor)),
+                Outcome::Panicked(msg) => ctx.violate("no-panic", ev, "eq-routes", format!("comparison / hashing panicked: {}", msg)),
+            }
         }
         "eall" => {
             ctx.event(&format!("eall|n={}", n), ev, true);
